@@ -3,6 +3,7 @@ import SR.Checker.Sched
 import SR.Checker.Spec
 import SR.Checker.Sim
 import SR.Checker.Verdict
+import SR.Checker.Assert
 /-! Driver commands of the checker group (C01, C02, C03, C11, C12, C13): `chk` runs the machine
 scheduler; `o-chk <prop> ...` evaluates the declarative oracle of one property on implementation outputs. -/
 namespace SR.Drv.Chk
@@ -209,6 +210,31 @@ def handle : Drv.Handler
     let d := if strat == "dfs" then Discipline.dfs else if strat == "bfs" then Discipline.bfs else Discipline.ondemand
     let s := runSingle c.params d (fuelFor g ps)
     pure (showSt s ++ showVerdict c.params s)
+  -- the provided helpers of the `Checker` trait after a single-threaded run: per property
+  -- `(i classification assert_any assert_no assert_discovery(own actions) assert_discovery(given actions))`
+  | "helpers", [.atom strat, g, ps, cfg, given] => do
+    let g ← Graph.ofSExp? g
+    let ps ← ps.listOf? GProp.ofSExp?
+    let (cfg, fin) ← parseCfg cfg
+    let given ← given.listOf? SExp.nats?
+    let c : Case := { g, props := ps, cfg, finish := fin }
+    let d := if strat == "dfs" then Discipline.dfs else if strat == "bfs" then Discipline.bfs else Discipline.ondemand
+    let P := c.params
+    let s := runSingle P d (fuelFor g ps)
+    let M := g.toSys
+    -- `discoveries()` rebuilds each stored fingerprint path with `Path::from_fingerprints` (states are their own keys)
+    let view : Assert.View Nat Nat :=
+      { done := isDone P s, disc := s.disc.filterMap fun (i, p) => (PathApi.fromFingerprints M id p).map fun q => (i, q) }
+    let b := fun (x : Bool) => if x then "ok" else "panic"
+    let rows := (List.range ps.length).map fun i =>
+      let cls := match Assert.classification P.props i with
+        | some .example => "example" | some .counterexample => "counterexample" | none => "panic"
+      let own := match view.discovery i with
+        | some q => b (Assert.assertDiscoveryOk M P.props view i (PathApi.intoActions q))
+        | none => "none"
+      let giv := b (Assert.assertDiscoveryOk M P.props view i (given.getD i []))
+      s!"({i} {cls} {b (Assert.assertAnyOk view i)} {b (Assert.assertNoOk view i)} {own} {giv})"
+    pure ("(" ++ " ".intercalate rows ++ s!") (assert {b (Assert.assertPropertiesOk P.props view)})")
   | "sim", [g, ps, cfg, ans] => do
     let g ← Graph.ofSExp? g
     let ps ← ps.listOf? GProp.ofSExp?
